@@ -115,19 +115,26 @@ type arenaSubject struct {
 	gen   byte
 	off   int
 	spare int
+	mode  int
 	err   string
 	Calls int
 	Spare int // calls that had spare capacity holding live data
 }
 
-func (a *arenaSubject) setNext(off, spare int) { a.off, a.spare = off, spare }
-func (a *arenaSubject) takeErr() string        { e := a.err; a.err = ""; return e }
+func (a *arenaSubject) setNext(off, spare, mode int) { a.off, a.spare, a.mode = off, spare, mode }
+func (a *arenaSubject) takeErr() string              { e := a.err; a.err = ""; return e }
 
-func (a *arenaSubject) fill() {
+// fill writes what the caller's buffer holds around the key: a non-zero
+// pattern (live data), zeros (a fresh buffer filled by append), or 0xff.
+func (a *arenaSubject) fill(mode int) {
 	for i := range a.arena {
-		a.arena[i] = 0x80 | (a.gen*37+byte(i)*11)&0x7f
-		if a.arena[i] == 0 {
-			a.arena[i] = 0xA5
+		switch mode {
+		case 1, 2:
+			a.arena[i] = 0
+		case 3:
+			a.arena[i] = 0xff
+		default:
+			a.arena[i] = 0x80 | (a.gen*37+byte(i)*11)&0x7f
 		}
 	}
 }
@@ -136,7 +143,7 @@ func (a *arenaSubject) fill() {
 // arena changed, then scribbles over the whole arena.
 func (a *arenaSubject) with(keys [][]byte, f func(ks [][]byte)) {
 	a.gen++
-	a.fill()
+	a.fill(a.mode)
 	pos := a.off
 	args := make([][]byte, len(keys))
 	fits := true
@@ -144,6 +151,11 @@ func (a *arenaSubject) with(keys [][]byte, f func(ks [][]byte)) {
 		if pos+len(k)+a.spare+1 > len(a.arena) {
 			fits = false
 			break
+		}
+		if a.mode == 2 { // live data before the key, a zero byte right behind it
+			for j := 0; j < pos; j++ {
+				a.arena[j] = 0x80 | (a.gen*37+byte(j)*11)&0x7f
+			}
 		}
 		copy(a.arena[pos:], k)
 		args[i] = a.arena[pos : pos+len(k) : pos+len(k)+a.spare]
@@ -173,7 +185,7 @@ func (a *arenaSubject) with(keys [][]byte, f func(ks [][]byte)) {
 	}
 	// the caller now reuses its buffer for something else
 	a.gen++
-	a.fill()
+	a.fill(0)
 }
 
 func (a *arenaSubject) Insert(k []byte, v int) {
@@ -246,7 +258,8 @@ type payload struct {
 
 type bigVal struct {
 	pad [192]byte
-	p   *int
+	p   *payload // pointer inside a large struct: the target carries a finalizer
+	s   string
 }
 
 type finRegistry struct {
@@ -354,22 +367,22 @@ func newSubjectFor(e *Engine, k Kind) Subject {
 	case "bytes":
 		return NewSubject(k, ValCodec[[]byte]{Name: "bytes", To: mkBytes, Back: bytesID})
 	case "big":
+		r := e.reg()
 		return NewSubject(k, ValCodec[bigVal]{Name: "big",
 			To: func(id int) bigVal {
 				var v bigVal
 				for i := range v.pad {
 					v.pad[i] = byte(id + i*3)
 				}
-				x := new(int)
-				*x = id
-				v.p = x
+				v.p = mkPayload(r, id)
+				v.s = mkString(id)
 				return v
 			},
 			Back: func(v bigVal) int {
-				if v.p == nil {
+				id := payloadID(v.p)
+				if id < 0 || stringID(v.s) != id {
 					return -1
 				}
-				id := *v.p
 				for i := range v.pad {
 					if v.pad[i] != byte(id+i*3) {
 						return -1
